@@ -37,6 +37,12 @@ Theorem C19_no_conns_no_tables : forall n0 n, reach_g n0 n -> n_conns n = [] ->
   (forall p, List.In p (n_peers n) -> p_conn p = None).
 Proof. exact NodeD.C19_no_conns_no_tables. Qed.
 
+Theorem C19_origin_backed : forall n0 n, reach_a n0 n -> origin_backed n.
+Proof. exact NodeD.C19_origin_backed. Qed.
+
+Theorem C19_no_conns_no_origin : forall n0 n, reach_ga n0 n -> n_conns n = [] -> n_origin_waiting n = [].
+Proof. exact NodeD.C19_no_conns_no_origin. Qed.
+
 Theorem C13_closed_stays_closed : forall n0 n cid r c evs, reach n0 n -> get_conn n cid = Some c ->
   let n' := fst (run (fst (close_conn n cid r)) evs) in
   ~ List.In cid (List.map c_id (n_conns n')) /\ ~ List.In cid (n_half_ready n') /\ ~ List.In cid (n_socket_peers n').
@@ -57,6 +63,15 @@ Theorem C19_empty_name_refuted :
     let n := fst (run n0 evs) in
     List.In ""%string (List.map fst (n_peer_waiting n)).
 Proof. exact NodeD.C19_empty_name_refuted. Qed.
+
+(* ---- FINDING: the discipline is needed.  Application.send_answer called with a message whose request flag is
+   set: route_answer takes the waiting entry, send_message treats the message as a request (no _record_answer),
+   and the origin entry stays for ever although nothing backs it.  The history satisfies (i') and (iii). ---- *)
+Theorem C19_origin_backed_request_flag_refuted :
+  exists n0 evs, wf_init_g n0 /\ ce_guard n0 evs /\
+    let n := fst (run n0 evs) in
+    n_origin_waiting n = [(7%Z, 7%Z, "a"%string)] /\ n_peer_waiting n = [("a"%string, [])] /\ ~ origin_backed n.
+Proof. exact NodeD.C19_origin_backed_request_flag_refuted. Qed.
 End FromNodeD.
 
 Module FromNodeC.
@@ -68,6 +83,15 @@ Theorem C09_removed_on_close n cid r c :
   get_conn n cid = Some c ->
   forall l, ~ List.In (c_host c, l) (n_peer_waiting (remove_conn n cid r)).
 Proof. exact (@NodeC.C09_removed_on_close n cid r c). Qed.
+
+(* C09: an answer that cannot be routed although some host was waiting for its pair (no connection
+   of that host, or the connection is not ready) releases the pair's entry of the origin table *)
+Theorem C09_unroutable_releases_origin n m :
+  fst (route_answer n m) = None ->
+  List.find (fun e => mem_zz (o_hbh m, o_e2e m) (snd e)) (n_peer_waiting n) <> None ->
+  forall h e x, List.In (h, e, x) (n_origin_waiting (snd (route_answer n m))) ->
+                ~ (h = o_hbh m /\ e = o_e2e m).
+Proof. exact (@NodeC.C09_unroutable_releases_origin n m). Qed.
 
 (* C10: an answer is handed to the blocked caller of the application that sent the request
    (and to no other application), or reported as unexpected to that application when nobody is
@@ -107,10 +131,14 @@ Print Assumptions FromNodeD.C19_windows_bounded.
 Print Assumptions FromNodeD.C19_waiting_hosts.
 Print Assumptions FromNodeD.C19_no_conns_no_waiting.
 Print Assumptions FromNodeD.C19_no_conns_no_tables.
+Print Assumptions FromNodeD.C19_origin_backed.
+Print Assumptions FromNodeD.C19_no_conns_no_origin.
 Print Assumptions FromNodeD.C13_closed_stays_closed.
 Print Assumptions FromNodeD.C19_connecting_read_refuted.
 Print Assumptions FromNodeD.C19_empty_name_refuted.
+Print Assumptions FromNodeD.C19_origin_backed_request_flag_refuted.
 Print Assumptions FromNodeC.C09_removed_on_close.
+Print Assumptions FromNodeC.C09_unroutable_releases_origin.
 Print Assumptions FromNodeC.C10_correlation.
 Print Assumptions FromNodeC.C10_duplicate_ignored.
 Print Assumptions FromNodeC.C09_second_fails.
